@@ -166,6 +166,8 @@ class Streams(Stage):
         for m in specs:
             while d.chance(0.4):
                 lines.append(['chat', gen_chatter(d)])
+                if d.chance(0.2):
+                    lines.append(['chat', lines[-1][1]])      # the very same line again (a warning printed twice): two lines, two items
             t = wire.render(m, dialect, queue=queue)
             if d.chance(0.1):
                 t = t + d.choice([' ', '\t', '  '])      # trailing blanks (surrounding whitespace aside)
